@@ -55,7 +55,7 @@ Proof.
 Defined.
 Definition ostep_eq_dec : forall a b : ostep, {a = b} + {a <> b}.
 Proof.
-  decide equality; [apply snapshot_eq_dec | apply list_eq_dec; apply fevent_eq_dec | apply resp_eq_dec].
+  decide equality; [apply snapshot_eq_dec | apply list_eq_dec; apply fevent_eq_dec | apply list_eq_dec; apply fevent_eq_dec | apply resp_eq_dec].
 Defined.
 
 Definition kv_model (c : scase) : list ostep := srun c.
@@ -77,6 +77,7 @@ Definition resp_match (m o : resp) : bool :=
 Definition ostep_match (m o : ostep) : bool :=
   resp_match (os_resp m) (os_resp o)
   && (if list_eq_dec fevent_eq_dec (os_live m) (os_live o) then true else false)
+  && (if list_eq_dec fevent_eq_dec (os_dump m) (os_dump o) then true else false)
   && (if snapshot_eq_dec (os_snap m) (os_snap o) then true else false).
 
 Fixpoint first_mismatch (i : N) (a b : list ostep) : option (N * option ostep * option ostep) :=
@@ -96,6 +97,7 @@ Record kv_diff := mkKvDiff {
   d_step : N;
   d_resp : option (resp * resp);
   d_live : option (list fevent * list fevent);
+  d_dump : option (list fevent * list fevent);
   d_colls : option (list string * list string);
   d_rows : list (string * string * option obsrow * option obsrow);
   d_order : option (list (string * list string) * list (string * list string))
@@ -116,6 +118,7 @@ Definition kv_explain (c : scase * list ostep) : option kv_diff + string :=
       inl (Some (mkKvDiff i
         (if resp_eq_dec (os_resp m) (os_resp o) then None else Some (os_resp m, os_resp o))
         (if list_eq_dec fevent_eq_dec (os_live m) (os_live o) then None else Some (os_live m, os_live o))
+        (if list_eq_dec fevent_eq_dec (os_dump m) (os_dump o) then None else Some (os_dump m, os_dump o))
         (if list_eq_dec string_dec (sn_colls (os_snap m)) (sn_colls (os_snap o)) then None else Some (sn_colls (os_snap m), sn_colls (os_snap o)))
         (rows_diff (sn_rows (os_snap m)) (sn_rows (os_snap o)))
         (if snapshot_eq_dec (mkSnap [] [] (sn_order (os_snap m)) []) (mkSnap [] [] (sn_order (os_snap o)) []) then None
@@ -186,6 +189,7 @@ Definition mask_snap (m : pmask) (s : snapshot) : snapshot :=
 Definition mask_ostep (m : pmask) (o : ostep) : ostep :=
   mkOstep (if pm_resp m then mask_resp m (os_resp o) else ROk)
           (if pm_live m then map (mask_fevent m) (os_live o) else [])
+          (if pm_order m then map (mask_fevent m) (os_dump o) else [])
           (mask_snap m (os_snap o)).
 
 Definition step_relevant := sop -> bool.
@@ -229,3 +233,43 @@ Definition kv_corr_C06 := kv_corr_proj mask_C06 (rel_kv (fun op => is_insert op 
 Definition kv_corr_C07 := kv_corr_proj mask_C07 (rel_kv xattr_op).
 Definition kv_corr_C08 := kv_corr_proj mask_C08 (rel_kv_or_admin (fun op => negb (is_read op))).
 Definition kv_corr_C17 := kv_corr_proj mask_C17 rel_all.
+
+Definition kv_chk_C09 (c : scase * list ostep) : bool := chk_C09_kv c.
+Definition kv_chk_C11 (c : scase * list ostep) : bool := chk_C11_kv c.
+Definition kv_chk_C18 (c : scase * list ostep) : bool := chk_C18_kv c.
+
+(* the same checkers applied to the MODEL's own trace of the recorded inputs (evaluated, not proved:
+   for C09 / C11 / C18 the theorems are stated on the store and on Json.v, see props/) *)
+Definition kv_model_chk (chk : scase * list ostep -> bool) (c : scase * list ostep) : bool := chk (fst c, srun (fst c)).
+
+(*                               resp  body  cas   exp   xattr rev   json  del   live  order *)
+Definition mask_C09 := mkMask    false true  true  true  true  true  true  true  true  true.
+Definition mask_C11 := mkMask    true  true  true  true  true  true  true  true  true  true.
+Definition mask_C18 := mkMask    true  true  true  false false false false false false false.
+
+Definition is_dump (o : sop) : bool := match o with SDump _ _ => true | _ => false end.
+Definition subdoc_op (op : kop) : bool :=
+  match op with KWriteSubDoc _ _ _ | KSubdocInsert _ _ _ | KGetSubDocRaw _ => true | _ => false end.
+
+(* C11 looks only at the collections the step did NOT address *)
+Definition mask_other_colls (o : sop) (ob : ostep) : ostep :=
+  match o with
+  | SKv c _ _ => mkOstep ROk (map (fun e => mkFevent FMutation "" "" [] false false 0 0 0 (f_coll e)) (os_live ob)) []
+                         (mkSnap (sn_colls (os_snap ob)) (rows_outside c (os_snap ob)) (order_outside c (os_snap ob)) [])
+  | SDropColl c | SCreateColl c =>
+      mkOstep (os_resp ob) [] [] (mkSnap (sn_colls (os_snap ob)) (rows_outside c (os_snap ob)) (order_outside c (os_snap ob)) [])
+  | _ => ob
+  end.
+
+Definition kv_corr_C09 := kv_corr_proj mask_C09 (fun o => match o with SDump _ _ | SKv _ _ _ => true | _ => false end).
+Definition kv_corr_C18 := kv_corr_proj mask_C18 (rel_kv subdoc_op).
+Definition kv_corr_C11 (c : scase * list ostep) : bool :=
+  match first_mismatch 0 (srun (fst c)) (snd c) with
+  | None => true
+  | Some (i, Some mo, Some ob) =>
+      match nth_error (sc_steps (fst c)) (N.to_nat i) with
+      | Some (_, o) => ostep_match (mask_other_colls o mo) (mask_other_colls o ob)
+      | None => false
+      end
+  | Some _ => false
+  end.
